@@ -261,6 +261,11 @@ static size_t appendUnique(uint16_t* list, uint16_t value, size_t position) {
   return position + 1;
 }
 
+#if defined(PICNIC_VERIF)
+void (*picnic_verif_challenge_kkw)(unsigned int num_rounds, unsigned int num_opened,
+                                   unsigned int num_parties, uint16_t* challengeC,
+                                   uint16_t* challengeP) = NULL;
+#endif
 static void expandChallenge(uint16_t* challengeC, uint16_t* challengeP, const uint8_t* sigH,
                             const picnic_instance_t* params) {
   uint8_t h[MAX_DIGEST_SIZE] = {0};
@@ -316,6 +321,12 @@ static void expandChallenge(uint16_t* challengeC, uint16_t* challengeP, const ui
     hash_squeeze(&ctx, h, params->digest_size);
     hash_clear(&ctx);
   }
+#if defined(PICNIC_VERIF)
+  if (picnic_verif_challenge_kkw) {
+    picnic_verif_challenge_kkw(params->num_rounds, params->num_opened_rounds,
+                               params->num_MPC_parties, challengeC, challengeP);
+  }
+#endif
 }
 
 static void HCP(uint8_t* sigH, uint16_t* challengeC, uint16_t* challengeP, const commitments_t* Ch,
